@@ -124,7 +124,13 @@ func solve(o *Obligation, cfg *SolverCfg) {
 	}
 	res, out := runOne(context.Background(), solvers[0], file, st1)
 	solver := solvers[0].name
-	if res != "sat" && res != "unsat" {
+	if o.Kind == "cover" && res != "sat" && res != "unsat" {
+		// vacuity guard only: "unknown" is tolerated, do not spend the race on it
+		res2, out2 := runOne(context.Background(), solvers[1], file, st1)
+		if res2 == "sat" || res2 == "unsat" {
+			res, out, solver = res2, out2, solvers[1].name
+		}
+	} else if res != "sat" && res != "unsat" {
 		// stage 2: race all three
 		ctx, cancel := context.WithCancel(context.Background())
 		type r struct{ res, out, name string }
